@@ -26,7 +26,7 @@ CHECKS = {
          "DESIGN.md section 4, C05"),
  "C17": ("exploration",
          "exhaustive enumeration of methods x authorization variants on the real binaries and of client certificates x TLS option combinations",
-         "4 token configurations x {leader, follower} real `regatta` processes x every method of Tables and Maintenance (+ KV/Cluster controls) x 14 authorization variants; 14 client certificate kinds x 16 TLS option combinations through real handshakes against security.TLSInfo.ServerConfig().",
+         "4 token configurations x {leader, follower} real `regatta` processes x every method of Tables and Maintenance (+ KV/Cluster controls) x 14 authorization variants; 14 client certificate kinds against the real leader binary on both TLS endpoints x 4 configurations, and x 16 TLS option combinations through real handshakes against security.TLSInfo.ServerConfig().",
          "Trusted: crypto/tls, crypto/x509 (VerifyHostname is the reference for hostname validity); mutating calls are never sent with the right token.",
          "DESIGN.md section 4, C17"),
  "C06": ("model_checking",
@@ -56,7 +56,7 @@ CHECKS = {
          "DESIGN.md section 4, C08"),
  "C13": ("exploration",
          "bounded exhaustive sequence enumeration on the real kv.LFSM vs a CAS-register-map model, all batchings, snapshot round trip",
-         "Every update sequence up to length 3 (quick) / 4 (thorough) over 36 updates (set/delete x 3 keys x {0,current,previous,current+1} versions x 2 values) and every sequence up to length 2 over 120 updates (6 keys, far-future version, empty value): result codes and payloads, get/exists/globs vs model, list/listdir history-independence, snapshot->recover into a non-empty store, a snapshot prepared before every entry and saved after the last (must be the store at its prepare point; a replica recovered from it replays the tail identically), a second replica under every batching; conformance of the store adapter used by C14/C15 with the real RaftStore.",
+         "Every update sequence up to length 3 (quick) / 4 (thorough) over 36 updates (set/delete x 3 keys x {0,current,previous,current+1} versions x 2 values) and every sequence up to length 2 over 120 updates (6 keys, far-future version, empty value): result codes and payloads, get/exists/globs vs model, list/listdir history-independence, snapshot->recover into a non-empty store, a snapshot prepared before every entry and saved after the last (must be the store at its prepare point; a replica recovered from it replays the tail identically), a second replica under every batching; conformance of the store adapter used by C14/C15 with the real RaftStore, and the real RaftStore against a plain map of the successful updates (refused sets report the current pair).",
          "Trusted: the map model; entries are built exactly as RaftStore marshals them. RaftStore's error mapping over a real NodeHost is exercised by the engine-based checks.",
          "DESIGN.md section 4, C13"),
  "C14": ("model_checking",
@@ -66,7 +66,7 @@ CHECKS = {
          "DESIGN.md section 4, C14"),
  "C15": ("model_checking",
          "stateless interleaving exploration (cooperative scheduler, unbounded preemptions, replica lag as data choice, visited-state pruning) of real LeaseTable/ReturnTable",
-         "ALL interleavings, at the granularity of individual metadata-store reads and writes plus the lag of every stale read, of 1-2 lease/renew/return calls per node for 2 nodes (all program pairs) and 3 nodes, from 4 initial lease records, small scenarios a second time with lagging replicas moving forward by real snapshot save/install; oracle on the committed log: replicas agree on every result, no lease granted over another node's unexpired lease, return removes only the caller's lease, results agree with the log, at most one believer.",
+         "ALL interleavings, at the granularity of individual metadata-store reads and writes plus the lag of every stale read, of 1-2 lease/renew/return calls per node for 2 nodes (all program pairs) and 3 nodes, from 4 initial lease records, small scenarios a second time with lagging replicas moving forward by real snapshot save/install; oracle on the committed log: replicas agree on every result, no lease granted over another node's unexpired lease, worker side: two real replication workers (real worker.Start) in synctest bubbles with one node cut off from the metadata store for every window on a half-interval grid - a worker's lease flag is only ever set while the committed record names it and is unexpired, return removes only the caller's lease, results agree with the log, at most one believer.",
          "Trusted: the store adapter's model of dragonboat; durations +1h/-1h so no wall-clock dependence.",
          "DESIGN.md section 4, C15"),
  "C19": ("model_checking",
